@@ -263,3 +263,17 @@ prop("C17", level="exploration", bounded=True,
      note="Exploration level. Stamps over two loop ranks in the proved core.",
      also=["ListElem"],
      trusted_base=[])
+
+prop("C06", level="exploration", bounded=True,
+     technique="bounded composition check: generated kernels in the library's idiom on the real library vs a dense reference; deductive core = the contracts of the operators the idiom uses",
+     text="The property quantifies over client programs, so no function of the repository carries it: deductively it is a corollary of contracts proved "
+          "elsewhere and re-checked here -- intersection yields exactly the common coordinates with the operands' own payloads (C04), Payload * and += "
+          "compute on the values and update the same box (C11), point references alias stored payloads (C03). The composition itself is bounded (not "
+          "proved): a generated family of sum-of-products kernels (dot, matrix-vector, matrix-matrix, elementwise, reductions, outer product, three "
+          "operands) written under /verif/bounded/kernels.py is run on the real library for every operand value assignment over {0,1,2} on tiny shapes "
+          "x every loop order x both intersection styles with zero products filtered; for seeded random sparse operands with mixed signs x random "
+          "uniform tilings of any subset of ranks (applied consistently to operands and output) x random legal loop orders with operands swizzled to "
+          "match; and for every tile size of each rank of a matmul x all loop orders -- against a dense nested-loop reference.",
+     note="Exploration level; the kernels are harness programs, never presented as repository code. Populate and swizzle/split are bounded-only (C05, C09, C08).",
+     also=["__and__.and_iterator.__iter__", "Payload.__mul__", "Payload.__iadd__", "Payload.__rmul__"],
+     trusted_base=[])
